@@ -51,6 +51,10 @@ struct LambdaTraits {
     {
         return false;
     }
+    static double hang_s()
+    {
+        return 60;
+    }
 };
 
 int main(int argc, char **argv)
@@ -63,7 +67,7 @@ int main(int argc, char **argv)
     // histories and tuples first (cheap, and they carry the state-related part of the property)
     EC::run_histories("histories", thorough ? 4 : 3);
     phase_log("C13", "histories");
-    EC::run_tuples("tuples", thorough ? 4 : 3);
+    EC::run_tuples("tuples", thorough ? 4 : 3, {0, 1});
     phase_log("C13", "tuples");
 
     PoolCfg pc = pool_cfg(thorough ? 3 : 1);
@@ -72,7 +76,7 @@ int main(int argc, char **argv)
     build_pool(P, pc, "pool");
     std::vector<Recipe> deep = P.level_recipes(pc, 2);
     phase_log("C13", "pool " + std::to_string(P.V.size()) + "+" + std::to_string(P.B.size()) + " states, " + std::to_string(deep.size()) + " level-2 recipes");
-    EC::run_terms(P, "terms", deep, {0, 1});
+    EC::run_terms(P, "terms", {0, 1}, deep, {0, 1});
     phase_log("C13", "terms");
 
     R.states = P.V.size() + P.B.size();
